@@ -92,13 +92,15 @@ pub struct GenCfg {
     pub unions: bool,
     pub int128: bool,
     pub long_double: bool,
+    /// `long` bit-fields are at most 32 bits wide (portable to ILP32 / LLP64 targets)
+    pub portable: bool,
     pub prefix: String,
 }
 
 impl Default for GenCfg {
     fn default() -> Self {
         GenCfg { n_decls: 20, max_members: 6, max_depth: 2, bitfields: true, packed: true, aligned: true, pragma_pack: true,
-                 unions: true, int128: true, long_double: true, prefix: String::new() }
+                 unions: true, int128: true, long_double: true, portable: false, prefix: String::new() }
     }
 }
 
@@ -278,7 +280,7 @@ impl Gen<'_> {
                 let run = 1 + self.rng.below(4);
                 for _ in 0..run {
                     let b = self.rng.below(BIT_BASES.len() as u64) as usize;
-                    let maxw = BIT_BASES[b].1;
+                    let maxw = if self.cfg.portable && BIT_BASES[b].0.ends_with("long") && !BIT_BASES[b].0.ends_with("long long") { 32 } else { BIT_BASES[b].1 };
                     let unnamed = self.rng.chance(1, 8);
                     let w = if unnamed && self.rng.chance(1, 2) { 0 } else { 1 + self.rng.below(maxw as u64) as u32 };
                     *fcount += 1;
